@@ -64,6 +64,7 @@ fn want_items(m: &BTreeMap<Vec<u8>, E>, after: Option<&[u8]>, hi: Option<&[u8]>,
 /// apply `n` random mutations to keys strictly greater than `pos` (or anywhere when `pos` is None)
 fn mutate(b: &Bucket, m: &mut BTreeMap<Vec<u8>, E>, rng: &mut Rng, pos: Option<&[u8]>, n: usize, ps: usize, log: &mut Vec<String>) -> Result<(), String> {
     for _ in 0..n {
+        crate::report::progress();
         let ahead: Vec<Vec<u8>> = m.keys().filter(|k| pos.map(|p| k.as_slice() > p).unwrap_or(true)).cloned().collect();
         let choice = rng.below(10);
         match choice {
@@ -196,6 +197,7 @@ pub const KINDS: [&str; 6] = ["cursor", "seeked-cursor", "range-from", "range-fr
 
 /// Returns Err((signature, detail)) on a disagreement.
 pub fn run_case(c: &Case, path: &std::path::Path, st: &mut BTreeMap<String, u64>) -> Result<(), (String, String)> {
+    crate::report::progress();
     let ps = 1024usize;
     let mut rng = Rng::new(c.seed);
     let _ = std::fs::remove_file(path);
